@@ -20,6 +20,8 @@ type Relay struct {
 	target string
 	plan   atomic.Value // RelayPlan
 	Segs   int64        // segments written that ended inside a packet (statistics)
+	ToSrv  int64        // packets seen in the client -> server direction
+	ToCli  int64        // packets seen in the server -> client direction
 	mu     sync.Mutex
 	conns  []net.Conn
 }
@@ -50,8 +52,8 @@ func StartRelay(target string) (*Relay, error) {
 			r.mu.Lock()
 			r.conns = append(r.conns, c, s)
 			r.mu.Unlock()
-			go r.pump(c, s)
-			go r.pump(s, c)
+			go r.pump(c, s, &r.ToSrv)
+			go r.pump(s, c, &r.ToCli)
 		}
 	}()
 	return r, nil
@@ -70,7 +72,7 @@ func (r *Relay) Close() {
 }
 
 // pump forwards src -> dst.
-func (r *Relay) pump(src, dst net.Conn) {
+func (r *Relay) pump(src, dst net.Conn, frames *int64) {
 	defer src.Close()
 	defer dst.Close()
 	var pending []byte // received, not yet forwarded
@@ -117,6 +119,7 @@ func (r *Relay) pump(src, dst net.Conn) {
 				framed = false // not framed traffic (or hostile): forward as is from here on
 				break
 			}
+			atomic.AddInt64(frames, 1)
 			if e := off + p.Cut; p.Cut > 0 && e < flushEnd && (len(ends) == 0 || e > ends[len(ends)-1]) {
 				ends = append(ends, e)
 			}
